@@ -65,9 +65,13 @@ def _patch_decimalfp():
         return
     max_prec = m.MAX_DEC_PRECISION
 
+    orig = m._approx_rational
+
     def _approx_rational(num, den, min_prec=0):
         if num == 0:
             return 0, min_prec, 0
+        if den == 0:
+            return orig(num, den, min_prec)     # raises, as the original
         g = gcd(num, den)
         n, d = num // g, den // g
         if d < 0:
@@ -86,7 +90,7 @@ def _patch_decimalfp():
         return v, p, 0
 
     _approx_rational._verif_fast = True
-    _approx_rational._orig = m._approx_rational
+    _approx_rational._orig = orig
     m._approx_rational = _approx_rational
     DECIMAL_IMPL += ' (+closed-form _approx_rational)'
 
